@@ -1,0 +1,17 @@
+//go:build verif
+
+package logging
+
+// Contracts for property C44 (records of concurrent goroutines are not
+// interleaved): every logger writes through the serialising writer that
+// NewLogger put around the caller's writer. Comment-only file, read by govc.
+
+// NewLogger stores the serialising writer (stream.NewConcurrentWriter, whose
+// Write is proved to hold its mutex across its single downstream Write)
+// wrapped around exactly the writer it was given.
+//@ func NewLogger
+//@   ensures[serial] result.writer != nil && unboxptr(result.writer, "stream.concurrentWriter").writer == writer
+
+// A sublogger shares its parent's (serialising) writer.
+//@ func (*Logger).Sublogger
+//@   ensures[serial] result != nil ==> result.writer == l.writer
